@@ -163,6 +163,7 @@ type Engine struct {
 	wantWitness     int
 	seed            int64
 	files           map[string]*memFile
+	openFiles       map[*Cell]string
 	opaqueErrs      map[string]Value
 	initDone        bool
 	globalHdr       map[*ObjHdr]bool
